@@ -5,23 +5,35 @@ import NdnModel.Basic
 
   What is mirrored
   * `express_raw_interest`: `setdefault(node_name)` (a fresh node object only when the name has none),
-    `append_interest`, deadline = now + lifetime, the node *captured* by `_wait_for_data`;
+    `append_interest`, the node *captured* by `_wait_for_data`; v2 `no_response=True`: the packet is sent, `None` is
+    returned, nothing is recorded (the legacy front-end has no such switch: the keyword is ignored);
+  * `_wait_for_data` is a coroutine: its body runs when the caller first awaits it (`awaitAt` = express time + `defer`).
+    Until then the future sits in the table without any timer: Data / Nack / shutdown resolve it, the caller
+    learns the result when it awaits (state `held`).  At the await
+      - v2: `lifetime = deadline - now; if lifetime <= 0: lifetime = 100` - the timer runs to the original deadline
+        when that is still ahead, otherwise 100 ms (`grace`) from the await; in particular lifetime 0 means 100 ms;
+      - legacy: `wait_for(future, lifetime)` with the full lifetime from the await; lifetime 0 is `wait_for(.., 0)`:
+        an unresolved future times out in that very instant.
+    `Req.deadline` is that effective deadline (`expiry`).
   * `InterestTreeNode.satisfy`: CanBePrefix / implicit-digest test per entry, passed entries are handed to
-    the validator (v2: `create_task(entry.satisfy)`, legacy: `future.set_result` and the validator runs in
-    the express task), the list is replaced by the unsatisfied entries only when there are some, and the
-    node is unlinked from the trie when there are none (its list is then left untouched);
+    the validator (v2: `create_task(entry.satisfy)` at once, legacy: `future.set_result` and the validator runs in
+    the express task, i.e. not before the await), the list is replaced by the unsatisfied entries only when there are
+    some, and the node is unlinked from the trie when there are none (its list is then left untouched);
   * `_on_data` walk over all prefixes of the Data name, then `del trie[prefix]` for the emptied nodes;
   * `_on_nack` / `nack_interest` (entries named by the Nack, incl. the implicit digest);
-  * `_wait_for_data`: `wait_for` timeout at the deadline and cancellation by the caller, both followed by
+  * `wait_for` timeout at the deadline and cancellation by the caller, both followed by
     `_remove_pending` = `node.timeout(future)` on the *captured* node and `del trie[name]` only if that
-    node is still the one linked under the name;
+    node is still the one linked under the name; a caller can only cancel what it awaits (before the await there is
+    no task to cancel: no-op);
   * `_clean_up`.
   Node objects live in a heap (`nodeId ↦ pending_list`); the trie maps names to node ids, so an unlinked
   node that a waiting coroutine still holds is representable (that is the situation of finding F6b).
 
   Time: `tick t` moves the virtual clock and fires every timer due (`wait_for` deadlines, validator
-  completions).  Timers of different Interests commute, so they are fired Interest by Interest; for one
+  completions, first awaits).  Timers of different Interests commute, so they are fired Interest by Interest; for one
   Interest the earlier of (validator completion, deadline) wins (v2), a tie goes to the deadline.
+  `reach t` moves the clock to `t` firing only the timers due *before* `t`: what the loop has done when a packet that
+  arrives at the very instant `t` is handled before the timers of that instant (`Turn`, `lins` below).
   All other events happen at the current clock value and run to quiescence.
 -/
 namespace Ndn.Pit
@@ -33,9 +45,11 @@ inductive FrontEnd where
 /-- name = list of components (the model only compares components, so they are numbers) -/
 abbrev Name := List Nat
 
-/-- scripted behaviour of a validator: the five `ValidResult` values, or raising -/
+/-- scripted behaviour of a validator: the five `ValidResult` values, raising, or (`other`) handing back a value that
+    is not a `ValidResult` member at all (`False`, `None`, `0`, `True`, the string `'PASS'` ...; in the legacy
+    front-end, where truthiness decides, the harness maps every value to `pass` / `fail` and `other` reads as false) -/
 inductive Verdict where
-  | fail | timeout | silence | pass | allowBypass | raiseTimeout | raiseOther
+  | fail | timeout | silence | pass | allowBypass | raiseTimeout | raiseOther | other
   deriving DecidableEq, Repr, Inhabited
 
 inductive Outcome where
@@ -45,12 +59,14 @@ inductive Outcome where
   | cancelled                            -- InterestCanceled / CancelledError
   | valFail (d : Nat) (v : Verdict)      -- ValidationFailure carrying Data `d` and the verdict
   | validatorError (d : Nat)             -- legacy: the validator's own exception reaches the caller
+  | noResponse                           -- v2 `no_response=True`: express returned `None`
   deriving DecidableEq, Repr, Inhabited
 
 inductive IState where
   | waiting                              -- future pending, entry in the PIT
   | validating (d : Nat) (fin : Nat)     -- Data `d` taken, validator finishes at `fin`
   | done (o : Outcome) (t : Nat)         -- the awaitable finished with `o` at time `t`
+  | held (o : Outcome)                   -- the future is resolved with `o`, the caller has not awaited it yet
   deriving DecidableEq, Repr, Inhabited
 
 /-- what the application asked for (immutable) -/
@@ -58,15 +74,16 @@ structure Req where
   name : Name                -- node name (without an implicit digest component)
   implicit : Option Nat      -- implicit digest (digests are numbered by the harness)
   cbp : Bool                 -- CanBePrefix
-  deadline : Nat
+  deadline : Nat             -- when `wait_for` gives up (`expiry`)
   verdict : Verdict          -- what the validator supplied with this Interest will say
   lat : Nat                  -- ... and how long it takes
-  deriving Repr, Inhabited
+  awaitAt : Nat              -- when the caller first awaits what express returned
+  deriving DecidableEq, Repr, Inhabited
 
 /-- an expressed Interest: the request plus the node object captured at express time -/
 structure Interest extends Req where
   node : Nat
-  deriving Repr, Inhabited
+  deriving DecidableEq, Repr, Inhabited
 
 structure State where
   clock : Nat := 0
@@ -76,16 +93,31 @@ structure State where
   trie : List (Name × Nat) := []       -- name ↦ node id
   vcalls : List (Nat × Nat × Nat) := []  -- validator invocations (Interest, Data, time)
   errs : List PyErr := []              -- exceptions escaping a callback / reaching the awaitable
-  deriving Repr, Inhabited
+  deriving DecidableEq, Repr, Inhabited
 
 inductive Ev where
   | express (name : Name) (implicit : Option Nat) (cbp : Bool) (lifetime : Nat) (verdict : Verdict) (lat : Nat)
+      (defer : Nat) (noResponse : Bool)
   | data (name : Name) (digest : Nat) (d : Nat)
   | nack (name : Name) (implicit : Option Nat) (reason : Nat)
   | tick (t : Nat)
   | cancel (i : Nat)
   | shutdown
-  deriving Repr, Inhabited
+  | reach (t : Nat)
+  deriving DecidableEq, Repr, Inhabited
+
+/-- v2: `if lifetime <= 0: lifetime = 100` -/
+def grace : Nat := 100
+
+/-- when `wait_for` gives up, for an Interest expressed at `now` and awaited `defer` later -/
+def expiry (fe : FrontEnd) (now life defer : Nat) : Nat :=
+  match fe with
+  | .v1 => now + defer + life
+  | .v2 => if now + defer < now + life then now + life else now + defer + grace
+
+def mkReq (fe : FrontEnd) (now : Nat) (nm : Name) (imp : Option Nat) (cbp : Bool) (life : Nat) (v : Verdict)
+    (lat defer : Nat) : Req :=
+  ⟨nm, imp, cbp, expiry fe now life defer, v, lat, now + defer⟩
 
 /-- what the awaitable finishes with once the validator has answered; `none` = it does not finish
     (v2: the validation task died with the validator's exception, the future stays pending). -/
@@ -101,6 +133,24 @@ def validatorOutcome (fe : FrontEnd) (v : Verdict) (d : Nat) : Option Outcome :=
   | .v1, .raiseOther => some (.validatorError d)
   | .v1, .raiseTimeout => some (.validatorError d)
   | .v1, _ => some (.valFail d .fail)
+
+/-- the future is resolved with `o` now: the caller sees it now if it is awaiting, at its first await otherwise -/
+def resolve (now : Nat) (r : Req) (o : Outcome) : IState :=
+  if r.awaitAt ≤ now then .done o now else .held o
+
+/-- when the validator is started for a Data taken at `now`: v2 at once (its own task), legacy in the express
+    task, i.e. not before the await -/
+def vstart (fe : FrontEnd) (now : Nat) (r : Req) : Nat :=
+  match fe with
+  | .v1 => max now r.awaitAt
+  | .v2 => now
+
+/-- state of a request right after the first matching Data `d` was taken at time `now`
+    (a validator without latency that is started now answers in the same instant) -/
+def taken (fe : FrontEnd) (now : Nat) (r : Req) (d : Nat) : IState :=
+  match (if r.lat = 0 ∧ vstart fe now r ≤ now then validatorOutcome fe r.verdict d else none) with
+  | some o => resolve now r o
+  | none => .validating d (vstart fe now r + r.lat)
 
 def setSt (σ : State) (i : Nat) (s : IState) : State := { σ with sts := σ.sts.set i s }
 
@@ -137,6 +187,9 @@ def fireOne (fe : FrontEnd) (t : Nat) (σ : State) (i : Nat) : State :=
   match σ.ints[i]?, σ.sts[i]? with
   | some I, some .waiting =>
     if I.deadline ≤ t then removePending (setSt σ i (.done .timeout I.deadline)) i I else σ
+  | some I, some (.held o) =>
+    -- the first await of a resolved future returns / raises at once
+    if I.awaitAt ≤ t then setSt σ i (.done o I.awaitAt) else σ
   | some I, some (.validating d fin) =>
     match fe with
     | .v1 =>
@@ -149,26 +202,33 @@ def fireOne (fe : FrontEnd) (t : Nat) (σ : State) (i : Nat) : State :=
     | .v2 =>
       match validatorOutcome .v2 I.verdict d with
       | some o =>
-        if fin ≤ t ∧ fin < I.deadline then setSt σ i (.done o fin)
+        if fin ≤ t ∧ fin < I.deadline then
+          (if I.awaitAt ≤ t then setSt σ i (.done o (max fin I.awaitAt)) else setSt σ i (.held o))
         else if I.deadline ≤ t then removePending (setSt σ i (.done .timeout I.deadline)) i I
         else σ
       | none =>
         if I.deadline ≤ t then removePending (setSt σ i (.done .timeout I.deadline)) i I else σ
   | _, _ => σ
 
+/-- every timer due at or before `b` -/
+def fireAll (fe : FrontEnd) (b : Nat) (σ : State) : State :=
+  (List.range σ.ints.length).foldl (fireOne fe b) σ
+
 def tick (fe : FrontEnd) (σ : State) (t : Nat) : State :=
   let t' := max σ.clock t
-  (List.range σ.ints.length).foldl (fireOne fe t') { σ with clock := t' }
+  fireAll fe t' { σ with clock := t' }
+
+/-- the clock reads `t`, the timers due before `t` have run, those due at `t` have not (yet) -/
+def reach (fe : FrontEnd) (σ : State) (t : Nat) : State :=
+  let t' := max σ.clock t
+  if t' = 0 then { σ with clock := t' } else fireAll fe (t' - 1) { σ with clock := t' }
 
 /-- a passed entry: v2 `create_task(entry.satisfy(data))`, legacy `future.set_result(data)` followed by the
-    validator call in the express task.  A validator without latency answers in the same instant. -/
+    validator call in the express task. -/
 def deliver (fe : FrontEnd) (d : Nat) (σ : State) (e : Nat) : State :=
   match σ.ints[e]?, σ.sts[e]? with
   | some I, some .waiting =>
-    let σ1 := { σ with vcalls := σ.vcalls ++ [(e, d, σ.clock)] }
-    match (if I.lat = 0 then validatorOutcome fe I.verdict d else none) with
-    | some o => setSt σ1 e (.done o σ.clock)
-    | none => setSt σ1 e (.validating d (σ.clock + I.lat))
+    setSt { σ with vcalls := σ.vcalls ++ [(e, d, vstart fe σ.clock I.toReq)] } e (taken fe σ.clock I.toReq d)
   | some _, some _ =>
     -- the future is not pending any more (only possible when timer and packet share a loop turn):
     -- v2 still starts the validation task, whose result is then discarded by the done-guard
@@ -209,7 +269,9 @@ def named (ints : List Interest) (dg : Option Nat) (e : Nat) : Bool :=
   | none => false
 
 def nackEntry (r : Nat) (σ : State) (e : Nat) : State :=
-  if σ.sts[e]? = some .waiting then setSt σ e (.done (.nack r) σ.clock) else σ
+  match σ.ints[e]? with
+  | some I => if σ.sts[e]? = some .waiting then setSt σ e (resolve σ.clock I.toReq (.nack r)) else σ
+  | none => σ
 
 /-- `_on_nack` -/
 def onNack (σ : State) (nm : Name) (dg : Option Nat) (r : Nat) : State :=
@@ -222,10 +284,11 @@ def onNack (σ : State) (nm : Name) (dg : Option Nat) (r : Nat) : State :=
     let σ2 := { σ1 with heap := σ1.heap.set nid rest }
     if rest.isEmpty then delName σ2 nm else σ2
 
-/-- `future.cancel()` of a pending entry, and what its coroutine then does -/
+/-- `future.cancel()` of a pending entry, and what its coroutine then does (for a future nobody awaits yet the
+    coroutine does it at the await: the node is unlinked by then, so doing it now is unobservable) -/
 def cancelEntry (σ : State) (e : Nat) : State :=
   match σ.ints[e]?, σ.sts[e]? with
-  | some I, some .waiting => removePending (setSt σ e (.done .cancelled σ.clock)) e I
+  | some I, some .waiting => removePending (setSt σ e (resolve σ.clock I.toReq .cancelled)) e I
   | _, _ => σ
 
 /-- `_clean_up` -/
@@ -233,36 +296,52 @@ def onShutdown (σ : State) : State :=
   let es := σ.trie.flatMap (fun b => pend σ b.2)
   es.foldl cancelEntry { σ with trie := [] }
 
-/-- the caller cancels the awaitable -/
+/-- the caller cancels the awaitable (the task awaiting it: before the first await there is none) -/
 def onCancel (fe : FrontEnd) (σ : State) (i : Nat) : State :=
   match σ.ints[i]?, σ.sts[i]? with
-  | some I, some .waiting => removePending (setSt σ i (.done .cancelled σ.clock)) i I
+  | some I, some .waiting =>
+    if σ.clock < I.awaitAt then σ else removePending (setSt σ i (.done .cancelled σ.clock)) i I
   | some I, some (.validating _ _) =>
+    if σ.clock < I.awaitAt then σ else
     match fe with
     | .v2 => removePending (setSt σ i (.done .cancelled σ.clock)) i I
     | .v1 => setSt σ i (.done .cancelled σ.clock)
   | _, _ => σ
 
-/-- `express_raw_interest` -/
-def onExpress (σ : State) (nm : Name) (imp : Option Nat) (cbp : Bool) (life : Nat) (v : Verdict) (lat : Nat) :
-    State :=
+/-- does this front-end honour `no_response`? -/
+def silent (fe : FrontEnd) (nr : Bool) : Bool :=
+  match fe with
+  | .v2 => nr
+  | .v1 => false
+
+/-- `express_raw_interest`, and the timers of the new Interest that are due in this very instant
+    (legacy, lifetime 0, awaited at once: `wait_for(future, 0)`) -/
+def onExpress (fe : FrontEnd) (σ : State) (nm : Name) (imp : Option Nat) (cbp : Bool) (life : Nat) (v : Verdict)
+    (lat defer : Nat) (nr : Bool) : State :=
   let i := σ.ints.length
-  match trieGet σ.trie nm with
-  | some nid =>
-    { σ with ints := σ.ints ++ [⟨⟨nm, imp, cbp, σ.clock + life, v, lat⟩, nid⟩], sts := σ.sts ++ [.waiting],
-             heap := σ.heap.set nid (pend σ nid ++ [i]) }
-  | none =>
-    let nid := σ.heap.length
-    { σ with ints := σ.ints ++ [⟨⟨nm, imp, cbp, σ.clock + life, v, lat⟩, nid⟩], sts := σ.sts ++ [.waiting],
-             heap := σ.heap ++ [[i]], trie := σ.trie ++ [(nm, nid)] }
+  let r := mkReq fe σ.clock nm imp cbp life v lat defer
+  if silent fe nr then
+    { σ with ints := σ.ints ++ [⟨r, 0⟩], sts := σ.sts ++ [.done .noResponse σ.clock] }
+  else
+    match trieGet σ.trie nm with
+    | some nid =>
+      fireOne fe σ.clock
+        { σ with ints := σ.ints ++ [⟨r, nid⟩], sts := σ.sts ++ [.waiting],
+                 heap := σ.heap.set nid (pend σ nid ++ [i]) } i
+    | none =>
+      let nid := σ.heap.length
+      fireOne fe σ.clock
+        { σ with ints := σ.ints ++ [⟨r, nid⟩], sts := σ.sts ++ [.waiting],
+                 heap := σ.heap ++ [[i]], trie := σ.trie ++ [(nm, nid)] } i
 
 def step (fe : FrontEnd) (σ : State) : Ev → State
-  | .express nm imp cbp life v lat => onExpress σ nm imp cbp life v lat
+  | .express nm imp cbp life v lat defer nr => onExpress fe σ nm imp cbp life v lat defer nr
   | .data nm dg d => onData fe σ nm dg d
   | .nack nm dg r => onNack σ nm dg r
   | .tick t => tick fe σ t
   | .cancel i => onCancel fe σ i
   | .shutdown => onShutdown σ
+  | .reach t => reach fe σ t
 
 def init : State := {}
 
@@ -271,5 +350,60 @@ def run (fe : FrontEnd) (evs : List Ev) : State := evs.foldl (step fe) init
 /-- number of linked nodes and of entries in them (what the harness reads off the real trie) -/
 def pitSize (σ : State) : Nat × Nat :=
   (σ.trie.length, (σ.trie.map (fun b => (pend σ b.2).length)).sum)
+
+/-! ### events that share an event-loop turn
+
+A `Turn` is what happens at one instant `t`: the timers due at `t` and the events (packets, a caller's
+cancellation, ...) that arrive in that same turn of the loop.  The loop may run them in any order: each event
+before or after the timers of the instant, the events among themselves in any order.  A linearisation
+(`Turn.lins`) is one such order written as a plain history: `tick t` first (the plain reading), or `reach t`, some of
+the events, `tick t`, the other events. -/
+
+structure Turn where
+  t : Nat
+  evs : List Ev
+  deriving Repr, Inhabited
+
+/-- all ways of inserting `a` into a list -/
+def inserts {α} (a : α) : List α → List (List α)
+  | [] => [[a]]
+  | b :: l => (a :: b :: l) :: (inserts a l).map (b :: ·)
+
+/-- all orders of a list -/
+def perms {α} : List α → List (List α)
+  | [] => [[]]
+  | a :: l => (perms l).flatMap (inserts a)
+
+/-- one order `p` of the events, the timers of the instant after the first `k` of them -/
+def Turn.lin (t : Nat) (p : List Ev) (k : Nat) : List Ev :=
+  if k = 0 then .tick t :: p else .reach t :: (p.take k ++ .tick t :: p.drop k)
+
+def Turn.lins (u : Turn) : List (List Ev) :=
+  (perms u.evs).flatMap fun p => (List.range (p.length + 1)).map (Turn.lin u.t p)
+
+/-- the linearisations of a history of turns -/
+def lins : List Turn → List (List Ev)
+  | [] => [[]]
+  | u :: r => u.lins.flatMap fun a => (lins r).map fun b => a ++ b
+
+/-- the per-Interest states a history of turns may end in: those of its linearisations -/
+def allowed (fe : FrontEnd) (h : List Turn) : List (List IState) :=
+  (lins h).map fun l => (run fe l).sts
+
+/-- insertion without duplicates -/
+def addNew {α} [DecidableEq α] (acc : List α) (x : α) : List α := if x ∈ acc then acc else acc ++ [x]
+
+def dedup {α} [DecidableEq α] (l : List α) : List α := l.foldl addNew []
+
+/-- the states reachable over one turn from a set of states -/
+def stepTurn (fe : FrontEnd) (S : List State) (u : Turn) : List State :=
+  dedup (S.flatMap fun σ => u.lins.map fun l => l.foldl (step fe) σ)
+
+/-- the set of states a history of turns can lead to (what the driver computes, turn by turn, without
+    enumerating whole linearisations) -/
+def reachable (fe : FrontEnd) (h : List Turn) : List State := h.foldl (stepTurn fe) [init]
+
+/-- the plain reading of a history of turns: timers first, then the events in the order given -/
+def plain (h : List Turn) : List Ev := h.flatMap fun u => .tick u.t :: u.evs
 
 end Ndn.Pit
